@@ -270,6 +270,27 @@ class C06:
 
 def run(ctx: Ctx, rep: Report, tier: str):
     c = C06(ctx, rep)
+    rep.rule("C06.R3b", "a stored cursor is discarded only when it is absent: EventManager tests `self.cursor` for identity with None, never for truthiness "
+             "(0 / '' / empty tuples are legitimate provider cursors)", expect_min=3)
+    em_ = ctx.prog.cls("EventManager")
+    for f_ in em_.methods.values():
+        for n_ in ctx.own_nodes(f_):
+            tests_ = []
+            if isinstance(n_, (ast.If, ast.While, ast.IfExp)):
+                tests_.append(n_.test)
+            elif isinstance(n_, ast.BoolOp):
+                tests_ += n_.values
+            elif isinstance(n_, ast.UnaryOp) and isinstance(n_.op, ast.Not):
+                tests_.append(n_.operand)
+            elif isinstance(n_, ast.Assert):
+                tests_.append(n_.test)
+            for t_ in tests_:
+                if pat.match("self.cursor", t_) is not None:
+                    rep.violation("C06.R3b", "%s|truthiness" % short(f_.qname), ctx.line(f_, n_),
+                                  "`self.cursor` is tested for truthiness: a legitimate falsy cursor (0, '') read from storage is thrown away and events between it and `current_cursor` are lost")
+            if isinstance(n_, ast.Compare) and len(n_.ops) == 1 and pat.match("self.cursor", n_.left) is not None:
+                okc = isinstance(n_.ops[0], (ast.Is, ast.IsNot, ast.Eq, ast.NotEq))
+                rep.check("C06.R3b", "%s|%s" % (short(f_.qname), ast.unparse(n_)), ctx.line(f_, n_), okc, "identity / equality test", "cursor compared by order")
     rep.rule("C06.R1", "in _do_unsafe the cursor write is reachable only through the exhausted provider.events() loop (the `stopped` early "
              "return skips it) and every fetched event is applied", expect_min=2)
     c.r1()
@@ -278,3 +299,8 @@ def run(ctx: Ctx, rep: Report, tier: str):
     c.r4()
     c.r5()
     c.r6()
+    from rules.common import alias
+    from rules.C08 import C08
+    alias(rep, ["C08.R6"], "C06.R7", "entries applied by the walk / by events are durable before the walk marker or cursor that vouches for them is written: "
+          "_process_event commits before it returns (C08.R6), so the marker write that follows the walk loop never outruns the entries", 1,
+          lambda: C08(ctx, rep).r6(), keep=lambda i: "_process_event" in i.key)
